@@ -650,6 +650,40 @@ func (c *Ctx) ringInvariant() {
 	}
 	run.Count("ring_state_methods", methods)
 	run.Floor("ring_state_methods", 2)
+	// At(i) is the element i places after begin, wrapped, on every path: nothing else decides what it
+	// returns (a count of stored elements computed from end - begin goes negative once the ring
+	// has wrapped, and a guard on it hides live elements)
+	if at := c.P.Method("helper", "Ring", "At"); at != nil && at.Decl.Body != nil {
+		site := "helper.(*Ring).At"
+		m := dtab.FromFuncDecl(info, at.Decl)
+		recv := ""
+		if len(at.Decl.Recv.List) == 1 && len(at.Decl.Recv.List[0].Names) == 1 {
+			recv = at.Decl.Recv.List[0].Names[0].Name
+		}
+		param := ""
+		if len(m.Params) == 1 {
+			param = m.Params[0]
+		}
+		want := sym.F("index", sym.V(recv+"."+ringF.buf), sym.F("mod", sym.Add(sym.V(recv+"."+ringF.begin), sym.V(param)), sym.F("len", sym.V(recv+"."+ringF.buf))))
+		good := len(m.Unsupported) == 0 && len(m.State) == 0 && param != "" && len(m.Paths) > 0
+		why := "At is not a side-effect free expression of the ring's state (undecided, fails closed)"
+		if good {
+			for _, p := range m.Paths {
+				if len(p.Ret) != 1 || !(sym.CanonString(p.Ret[0]) == sym.CanonString(want)) {
+					good = false
+					got := "nothing"
+					if len(p.Ret) == 1 {
+						got = sym.CanonString(p.Ret[0])
+					}
+					why = "a path of At returns " + short(got, 80) + ", not buffer[(begin+index) % len(buffer)]: a positional read must not depend on anything but begin, so that a ring that has wrapped (end behind begin) still yields its elements in FIFO order"
+				}
+			}
+		}
+		run.Oblige(good)
+		if !good {
+			c.violate("ring-observers", site, "paths", at.Decl.Pos(), why)
+		}
+	}
 	// the observers are functions of the state the invariant is about: IsEmpty() = empty,
 	// IsFull() = !empty && begin == end, on all four combinations. A cached answer kept in a field
 	// of its own is a second copy of the state that every method would have to keep up to date.
